@@ -36,7 +36,7 @@
    DB's memdb (the operation is defined on a DB whose live memdb is empty and which has no frozen one — the
    state OpenTransaction establishes before it creates the transaction), the table cache.  Go panics and
    exhausted fuel are explicit results.  Model file: definitions only. *)
-From GL Require Import Base.Bytes Base.Order Codec.IKey Codec.Table Lsm.Lsm Lsm.ReadPath Lsm.IterPath.
+From GL Require Import Base.Bytes Base.Order Codec.IKey Codec.Table Lsm.Lsm Lsm.ReadPath Lsm.IterPath Lsm.History Lsm.Txn.
 From GL Require Codec.Batch Codec.SessionRecord Mem.MemDB Iter.Cursor.
 From Coq Require Import ZArith.
 Open Scope N_scope.
@@ -470,3 +470,60 @@ Section TxnBytes.
         end
     end.
 End TxnBytes.
+
+(* ------------------------------------------------------------------ the abstraction to the history level *)
+(* The history-level machine of Lsm/Txn.v, extended by the one step it lacks: the sequence numbers of a transaction
+   whose Commit failed are consumed when it is discarded — db.seq jumps to tr.seq although nothing was written
+   (no stored entry carries the skipped numbers; Lsm/TxnBytesProofs.v: every read is unchanged by the jump). *)
+Inductive xop := XT (o : top) | XSkip (d : N).
+
+Definition x_skip (s : tstate) (d : N) : tstate :=
+  {| ts_h := {| h_seq := d; h_store := h_store (ts_h s); h_snaps := h_snaps (ts_h s); h_hist := h_hist (ts_h s) |};
+     ts_txn := ts_txn s |}.
+
+Definition xstep (s : tstate) (x : xop) : tstate :=
+  match x with XT o => tstep s o | XSkip d => x_skip s d end.
+Definition xrun (s : tstate) (xs : list xop) : tstate := fold_left xstep xs s.
+
+Section Abstraction.
+  Variable c : comparer.
+  Variable p : kparams.
+  Variable mp : MemDB.mparams.
+  Variable tp : tparams.
+  Variable crc : bytes -> N.
+  Variable decompress : bytes -> option bytes.
+  Variable fname : option bytes.
+  Variable ufc : bytes -> N -> bytes -> bool.
+  Variable verify : bool.
+  Variable ri : N.
+  Variable rp : SR.rparams.
+
+  (* what one step of the byte machine is at the history level: the records a Put / Delete / Write APPLIED (a failed
+     Write: the prefix before the record whose flush failed), one commit step for a Commit that succeeded,
+     nothing for one that failed, Discard (followed by the skip when a Commit had failed), the reorganisation
+     a background compaction committed *)
+  Definition abs_ops (w : tworld) (o : bop) : list xop :=
+    match o with
+    | BOpen cap => match w_open mp w cap with (_, TOk) => [XT TOpen] | _ => [] end
+    | BPut kt k v i => match w_put c p mp rp w kt k v i with (_, TOk) => [XT (TWrite [(kt, k, v)])] | _ => [] end
+    | BWrite b os =>
+        if Batch.batch_len b =? 0 then [] else
+        match tw_tr w with
+        | Some t =>
+            if tt_closed t then [] else
+            match Batch.batch_records b with
+            | Some recs => [XT (TWrite (applied c p mp rp t recs os))]
+            | None => []
+            end
+        | None => []
+        end
+    | BIterOpen | BIterRelease => []
+    | BCommit fo atts => match w_commit mp rp false w fo atts with (_, TOk) => [XT (TCommit true)] | _ => [] end
+    | BDiscard _ =>
+        match tw_tr w with
+        | Some t => if tt_closed t then [] else if tt_cfailed t then [XT TDiscard; XSkip (tt_seq t)] else [XT TDiscard]
+        | None => []
+        end
+    | BEnv st' => [XT (TOut (HReorg (all_entries (abs c mp tp crc decompress fname ufc verify ri st'))))]
+    end.
+End Abstraction.
